@@ -81,6 +81,8 @@ where
         // the check. The other way round, an error stored and announced between the check
         // and the registration would never wake this task.
         self.waker().register(cx.waker());
+        #[cfg(h3_verif)]
+        crate::verif_hooks::preempt("driver:pce:1");
 
         // Check if the connection is in error state
         if let Some(err) = self.get_conn_error() {
@@ -88,8 +90,6 @@ where
             // err might be a different error so match again
             return Poll::Ready(Err(self.convert_to_connection_error(err)));
         }
-        #[cfg(h3_verif)]
-        crate::verif_hooks::preempt("driver:pce:1");
         #[cfg(h3_verif)]
         crate::verif_hooks::preempt("driver:pce:2");
         Poll::Pending
